@@ -180,6 +180,8 @@ type tentry struct {
 	Precs    []int    `json:"precs"`
 	Defaults []string `json:"defaults"`
 	PMs      []string `json:"pms"`
+	Required int      `json:"required"`
+	Inner    *tentry  `json:"inner"`
 }
 
 var table []tentry
@@ -204,6 +206,16 @@ func (e tentry) arity() (int, int) {
 		return 1, 4
 	case "params":
 		return 1, len(e.PMs)
+	case "datedif":
+		return 3, 3
+	case "optional":
+		in := *e.Inner
+		in.Name = e.Name
+		_, hi := in.arity()
+		if hi < e.Required+len(e.Defaults) {
+			hi = e.Required + len(e.Defaults)
+		}
+		return e.Required, hi
 	}
 	// as is / rename: the migrator does not care; pick what the new function takes most of the time
 	switch e.Name {
@@ -1213,6 +1225,25 @@ func main() {
 		}
 	}
 
+	// a call with a number of arguments its migrator does not expect: either MigrateTemplate reports an error (and
+	// copies the expression) or every expression of its output parses
+	for _, tpl := range []string{`@(TRUE(1))`, `@(WEEKDAY("1-7-2014", 2))`, `@(LEFT("abc"))`, `@(DAYS("1-7-2014"))`, `@(DAY())`, `Hi @(HOUR()) there`, `@(TIME(1, 2))`,
+		`@(WORD("a b", 1, TRUE, 4))`, `@(POWER(1))`, `@(POWER(1, 2, 3))`, `@(1 + FIRST_WORD("a b", 1))`} {
+		res.OracleChecks++
+		out, hasErr, _ := migrateReal(tpl, options{})
+		if hasErr {
+			continue
+		}
+		for _, s := range scanReal(out, flows.RunContextTopLevels) {
+			if s.T == 2 {
+				if _, ok := parseReal(s.S); !ok {
+					res.Fail("parse:wrong-arity-call-migrates-to-garbage", map[string]any{"template": tpl}, fmt.Sprintf("%q migrates without error to %q, whose expression %q does not parse", tpl, out, s.S))
+					break
+				}
+			}
+		}
+	}
+
 	// text outside expressions keeps its meaning: an @name that the legacy system left alone (not a legacy top level)
 	// must not become an expression of the new system
 	for _, c := range [][2]string{{"mail @fields.n1 now", "mail @fields.n1 now"}, {"a @@fields.n1 b", "a @fields.n1 b"}, {"x@nyaruka.com @foo", "x@nyaruka.com @foo"}} {
@@ -1222,6 +1253,11 @@ func main() {
 		if hasErr || evErr || got != c[1] {
 			res.Fail("body:new-toplevel-identifier-becomes-live", map[string]any{"template": c[0]}, fmt.Sprintf("legacy %q denotes %q; migrated %q evaluates to %q", c[0], c[1], out, got))
 		}
+	}
+
+	if o.Replay == "" {
+		// legacytests: the legacy engine's recorded expectations (legacytests.go)
+		runLegacyTests(res, r.Fork("legacytests"), o.Count(120, 5000), o.Verbose)
 	}
 
 	if o.Replay == "" {
